@@ -31,7 +31,7 @@ class TrackProgram:
 
         kinds = ["zero", "one", "unmeasured", "reset", "remeasured", "random"]
         for _ in range(r.randrange(2, 6)):
-            place = r.choice(["main", "block", "loop", "func", "reg", "field", "multi", "method", "smethod", "ctor", "ret", "dtorfield"])
+            place = r.choice(["main", "block", "loop", "func", "reg", "field", "multi", "method", "smethod", "ctor", "ret", "dtorfield", "regfield"])
             kind = r.choice(kinds)
             if place == "main":
                 q = name("a")
@@ -77,6 +77,20 @@ class TrackProgram:
                 for _ in range(cnt):
                     body += ["{ %s o = new %s(); %s %s }" % (c, c, " ".join(st), "destroy o;" if how == "destroy" else "")]
                 self.expected["%s.%s" % (c, fq)] = {"exits": cnt, "outcome": out}
+            elif place == "regfield":
+                # a tracked register field: '?' unless every element was measured, whatever order and however many were
+                c, fr, size, cnt = name("G"), name("gr"), r.randrange(2, 4), r.randrange(1, 3)
+                st, bits = [], []
+                for e in range(size):
+                    sx, o = prep("o.%s[%d]" % (fr, e), r.choice(["zero", "one", "unmeasured", "unmeasured", "remeasured"]))
+                    st += sx
+                    bits.append(o)
+                out = "?" if "?" in bits else "".join(bits)
+                classes.append("class %s { @tracked public qubit[%d] %s; public constructor() -> %s = default; }" % (c, size, fr, c))
+                how = r.choice(["scope", "destroy"])
+                for _ in range(cnt):
+                    body += ["{ %s o = new %s(); %s %s }" % (c, c, " ".join(st), "destroy o;" if how == "destroy" else "")]
+                self.expected["%s.%s" % (c, fr)] = {"exits": cnt, "outcome": out}
             elif place == "dtorfield":
                 # the object's destructor performs the last operations on its tracked field: the record is taken after it
                 c, fq, cnt = name("D"), name("dq"), r.randrange(1, 4)
